@@ -24,7 +24,7 @@ impl C09 {
         C09 {
             tier,
             seed,
-            per_family: scaled(tier.pick(2_500, 40_000), scale),
+            per_family: scaled(tier.pick(1_000, 16_000), scale),
         }
     }
 }
@@ -43,10 +43,19 @@ impl Monitor for C09 {
         let mut r = Rng::derive(self.seed, 0x0901, k, 0);
         // plaintexts 2..128 KiB
         let max_plain = self.tier.pick(96 * 1024, 128 * 1024);
+        // stratified sample: every plaintext class with equal weight, sizes uniform in 2 KiB..max, so that a
+        // regression confined to one class of data still moves the family aggregate
         let s = loop {
-            let s = streams::compressor_stream(&mut r, max_plain, Some(fam));
-            if s.plain.len() >= 2048 {
-                break s;
+            let kind = *r.pick(&[0u64, 1, 2, 4, 5, 6, 8, 8]);
+            let n = 2048 + r.usize_below(max_plain - 2048);
+            let p = crate::plain::make_kind(&mut r, kind, n);
+            if let Some((rec, d)) = crate::comp::random_compress(&mut r, &p, Some(fam)) {
+                break streams::Stream {
+                    source: rec.family,
+                    recipe: format!("{} on {}[{}]", rec.text, crate::plain::kind_name(kind), p.len()),
+                    bytes: d,
+                    plain: p,
+                };
             }
         };
         ctx.item_bytes(&s.recipe, &s.bytes);
@@ -72,6 +81,10 @@ impl Monitor for C09 {
                 ctx.count(&format!("{}:accepted_both", name));
                 ctx.count_n(&format!("{}:corr_bytes_ref", name), x.corr.len() as u64);
                 ctx.count_n(&format!("{}:corr_bytes_cur", name), y.corr.len() as u64);
+                let level = s.recipe.split("level=").nth(1).and_then(|t| t.split(' ').next()).unwrap_or("?").to_string();
+                ctx.count_n(&format!("stratum:{}:level={}:corr_ref", name, level), x.corr.len() as u64);
+                ctx.count_n(&format!("stratum:{}:level={}:corr_cur", name, level), y.corr.len() as u64);
+                ctx.count(&format!("stratum:{}:level={}:n", name, level));
                 ctx.count_n(&format!("cell:{}:corr_ref", cell), x.corr.len() as u64);
                 ctx.count_n(&format!("cell:{}:corr_cur", cell), y.corr.len() as u64);
                 ctx.count_n(&format!("{}:compressed_bytes", name), s.bytes.len() as u64);
